@@ -166,6 +166,13 @@ func TestWorker(t *testing.T) {
 			if len(spec.Only) > 0 || (spec.SampleEvery > 0 && i%spec.SampleEvery == 0) {
 				emit(Line{T: "hash", I: i, Hash: fmt.Sprintf("%016x", res.Hash)})
 			}
+			if spec.Trace && (os.Getenv("VERIF_TRACE_I") == "" || os.Getenv("VERIF_TRACE_I") == fmt.Sprint(i)) {
+				l := Line{T: "trace", I: i, Scenario: sc}
+				for k := range res.Trace {
+					l.Trace = append(l.Trace, res.Trace[k].Human())
+				}
+				emit(l)
+			}
 			vs := Check(spec.Prop, sc, res)
 			if len(vs) > 0 {
 				sum.ViolRuns++
